@@ -29,7 +29,10 @@ class DryWorld(World):
             self.ref = ref_from_module(shape_of_swc(shape["swc_text"], shape.get("ncomp", 1)))
             self.ref.swc = True
         else:
+            from .driver import apply_pre
+
             self.ref = RefModule(shape["kind"], shape["cells"])
+            apply_pre(self.ref, shape)
         self.violations = []
         self.stats = {}
         self.stopped = None
@@ -234,7 +237,8 @@ def gen_op(r, dw, weights, cfg):
             key = r.choice(settable_keys(ref))
             own = owner_channel(ref, key)
             view = gen_node_view(r, ref, prefer=("channel", own) if own and r.random() < 0.4 else None)
-        return {"op": "make_trainable", "view": view, "key": key, "init": r.choice([None, None, "float", "list"]), "seed": seed}
+        # "badlist": a list init_val of the wrong length — must be refused and leave nothing behind
+        return {"op": "make_trainable", "view": view, "key": key, "init": r.choice([None, None, None, "float", "float", "list", "list", "badlist"]), "seed": seed}
     if kind == "delete_trainables":
         return {"op": "delete_trainables", "view": []}
     if kind == "connect":
